@@ -3,6 +3,7 @@
 -/
 import PgVerif.Basic.Canon
 import PgVerif.Spec.Scalars
+import PgVerif.Gen.Numjson
 namespace PgVerif.Gen.Scalars
 open PgVerif PgVerif.Spec.Scalars
 
@@ -277,13 +278,30 @@ def genGeo (size : Nat) : Gen Val := do
     let n ← Gen.edgy 1 (3 + size)
     return .polygon (← Gen.bytes 32) (← Gen.listOf n genPt)
 
+/-- a numeric range bound: small integers, the numerics of area numjson's generator (NaN, ±Infinity, any sign / weight /
+display scale, 0–8 digits), and long digit strings around the 1-byte / 4-byte varlena header switch (payload 126 / 127
+bytes: 62 / 63 digits in the short numeric form, 61 / 62 in the long one) and around a 4-byte header whose first byte is
+zero (total length 192 = 93 short-form / 92 long-form digits); either numeric header form when the value admits it -/
+def genNumBound : Gen Bound := do
+  let n : Spec.Numeric ← (do
+    match ← Gen.below 8 with
+    | 0 | 1 =>
+      let k ← Gen.oneOf [60, 61, 62, 63, 64, 65, 91, 92, 93, 94, 100, 150]
+      let ds ← Gen.listOf k PgVerif.Gen.genDigit
+      return .fin (← Gen.bool) (((← Gen.range 0 20) : Int) - 10) (← Gen.edgy 0 40) ds
+    | 2 => return .fin (← Gen.bool) 0 0 [← Gen.range 1 9999]
+    | 3 => return .fin false 0 (← Gen.edgy 0 3) []
+    | _ => PgVerif.Gen.genNumeric)
+  let form ← Gen.oneOf [Spec.HeaderForm.short, .long]
+  return .num n (if decide (Spec.HeaderForm.short.admits n) then form else .long)
+
 def genBound (ty : RangeTy) : Gen Bound := do
   match ty with
   | .int4 => return .int (← genSigned 32)
   | .int8 => return .int (← genSigned 64)
   | .date => return .date (← genDateV)
   | .ts | .tstz => return .ts (← genTsV)
-  | .num => return .num (← Gen.range 1 9999)
+  | .num => genNumBound
 
 def allRangeTys : List RangeTy := [.int4, .int8, .date, .ts, .tstz, .num]
 
